@@ -17,7 +17,7 @@ const WPAIRS: [(f64, f64); 7] = [(0.25, 0.25), (0.5, 0.5), (1.0, 1.0), (1.5, 1.5
 
 pub fn run(tier: Tier) -> i32 {
     let rep = Report::new("C12", tier, "model_checking");
-    rep.set_rule("SCOPE: all corpus windows of 10/20/40/60 consecutive labels at the tier's stride (plus a fixed shuffle of each) x GV weights {0.25,.5,1,1.5,2} on both GV streams alike plus the unequal pairs (.5,2) and (2,.5) x voices V0 (+P1..P3 thorough) and V0 with two other legal GV-off contexts (previous phoneme; relative accent position); trajectories via hook 1; oracle: for every coefficient of each GV stream with >= 100 eligible frames (voiced, label outside the voice's GV-off contexts by the independent glob matcher) |var/(w*gv_mean)-1| <= 0.2 and variance non-decreasing in w; silence-only utterances equal the dense ML solution; low-pass (non-GV) trajectory bit-identical for every weight; distinct = (voice, window, weight); non-trivial = >= 100 eligible frames");
+    rep.set_rule("SCOPE: all corpus windows of 10/20/40/60 consecutive labels at the tier's stride (plus a fixed shuffle of each) x GV weights {0.25,.5,1,1.5,2} on both GV streams alike plus the unequal pairs (.5,2) and (2,.5) x voices V0 (+P1..P3 thorough) and V0 with two other legal GV-off contexts (previous phoneme; relative accent position); trajectories via hook 1; oracle: for every coefficient of each GV stream with >= 100 eligible frames (voiced, label outside the voice's GV-off contexts by the independent glob matcher) |var/(w*gv_mean)-1| <= 0.2 and variance non-decreasing in w; silence-only utterances equal the dense ML solution; low-pass (non-GV) trajectory bit-identical for every weight; one MlpgAdjust asked twice (durations of speeds 1 and 0.6) equals fresh objects; distinct = (voice, window, weight); non-trivial = >= 100 eligible frames");
     rep.assume("corpus windows at the stated stride; weights on the 5-point lattice");
     let corpus = labels::corpus();
     // GV-off context variants: the bundled header's own patterns, and two legal variants that look at
@@ -228,6 +228,43 @@ pub fn run(tier: Tier) -> i32 {
             }
         }
     }
+    // the lower-level entry point: one MlpgAdjust (with GV) asked for trajectories twice, with the durations of two
+    // speaking rates - the second answer must be what a fresh MlpgAdjust gives for those durations
+    let mut reuse_cases = 0u64;
+    {
+        let base = engine_pk(&[0]);
+        for wi in (0..wins.len()).step_by((wins.len() / 4).max(1)).take(4) {
+            let u = &wins[wi];
+            let labs: Vec<jlabel::Label> = u.iter().map(|l| labels::parse(l)).collect();
+            let models = Models::new(&labs, &base.voices, base.condition.get_interporation_weight());
+            let est = DurationEstimator::new(models.duration(), 5);
+            let (d1, d2) = (est.create(1.0), est.create(0.6));
+            for stream in 0..2usize {
+                for &w in &[0.5, 1.0] {
+                    rep.eval(1);
+                    reuse_cases += 1;
+                    let r = catch(|| {
+                        let reused = jbonsai::mlpg_adjust::MlpgAdjust::new(w, 0.5, models.model_stream(stream));
+                        let a1 = reused.create(&d1);
+                        let a2 = reused.create(&d2);
+                        let a1_again = reused.create(&d1);
+                        let f2 = jbonsai::mlpg_adjust::MlpgAdjust::new(w, 0.5, models.model_stream(stream)).create(&d2);
+                        (bits_eq2(&a2, &f2), bits_eq2(&a1, &a1_again))
+                    });
+                    rep.cmp(2);
+                    match r {
+                        Err(p) => rep.violation("reuse-panic", format!("MlpgAdjust asked twice panics: {}", p), json!({"voice": "V0", "labels": u, "stream": stream, "gv_weight": w})),
+                        Ok((same2, same1)) => {
+                            if !same2 || !same1 {
+                                rep.violation("reuse", format!("stream {}: an MlpgAdjust asked a second time (other durations{}) does not give what a fresh one gives: GV state left over from the first call", stream, if same2 { ", then the first again" } else { "" }), json!({"voice": "V0", "labels": u, "stream": stream, "gv_weight": w, "speeds": [1.0, 0.6]}));
+                            }
+                        }
+                    }
+                }
+            }
+        }
+    }
+    rep.note("mlpg_adjust_reuse_cases", json!(reuse_cases));
     rep.nontrivial.store(nontriv.load(Ordering::Relaxed), Ordering::Relaxed);
     rep.note("bounds", json!({"weights": WEIGHTS, "window_widths": widths, "stride": stride, "windows": wins.len(), "voices": nvoice, "jobs": jobs.len(), "coefficient_variance_checks": coef_checks.load(Ordering::Relaxed), "worst_relative_deviation": *worst.lock().unwrap(), "silence_only_cases": sil_cases}));
     rep.sample(json!({"voice": "V0", "window": {"first_label": wins[0][0], "labels": wins[0].len()}, "gv_weights": WEIGHTS}));
